@@ -211,6 +211,18 @@ fn main() {
         }
         if let Cq::Seq(_, o1, _, rest, _) = &c { cx.out.count(&format!("first_occur_{}", occur_name(o1)), 1); cx.out.count("seq_members", 1 + rest.len() as u64); }
     }
+    // the fragment of theorem C16_print_parse (phrases, + / -, AND / OR, parentheses; any whitespace layout)
+    let n_pf = if thorough { 1500 } else { 120 };
+    for i in 0..n_pf {
+        let c = { let mut g = Gen { rng: &mut rng, mode: Mode::Phrase, loose_sep: i % 2 == 0 }; g.seq((i % 4) as u32) };
+        let s = c.text();
+        let st = cx.grammar_checks(&s, "phrase-fragment", true);
+        cx.out.count("printed_phrase_fragment", 1);
+        if let Some(o) = coq_outcome(&st) {
+            cx.out.coq_case("spec", format!("pf {c} && is_seq {c} && str_eqb (print {c}) {s} && outcome_eqb (Ok (norm_top {c})) {o}", c = c.coq(), s = cstr(&s), o = o),
+                json!({"what": "fragment of C16_print_parse: implementation vs norm_top", "query": show(&s), "depth": c.depth()}), c.depth() >= 2);
+        }
+    }
     // separators without a space character (tab / CR / LF only): same meaning expected
     let n_loose = if thorough { 1500 } else { 60 };
     for _ in 0..n_loose {
